@@ -122,7 +122,61 @@ def lowering_reads(idx: Index, cg, lower: FuncInfo, depth: int = 3) -> Tuple[Set
                     seen[id(g.node)] = g
                     nxt.append(g)
         frontier = nxt
+    _LOWER_FUNCS[id(lower.node)] = list(seen.values())
     return keys, esc, len(seen)
+
+
+_LOWER_FUNCS: Dict[int, List[FuncInfo]] = {}
+LOG_CALLS = {"debug", "info", "warning", "print", "log", "_debug", "error"}
+
+
+def read_usage(funcs: List[FuncInfo], key: str) -> Tuple[int, int, Optional[Tuple[FuncInfo, ast.AST]]]:
+    """(read sites of params[key], sites whose value is used, first unused site).  A read is unused when it is an
+    expression statement, or is assigned (possibly through int()/bool()/tuple()/cast()) to a local that is never loaded
+    again except in logging calls."""
+    n_sites = n_used = 0
+    first_unused = None
+    for fi in funcs:
+        du = defuse(fi.node)
+        for n in ast.walk(fi.node):
+            is_read = False
+            if isinstance(n, ast.Subscript) and isinstance(n.slice, ast.Constant) and n.slice.value == key and isinstance(n.ctx, ast.Load) and _is_paramslike(n.value, du):
+                is_read = True
+            elif isinstance(n, ast.Call) and isinstance(n.func, ast.Attribute) and n.func.attr in ("get", "pop") and n.args and isinstance(n.args[0], ast.Constant) and n.args[0].value == key and _is_paramslike(n.func.value, du):
+                is_read = True
+            if not is_read:
+                continue
+            n_sites += 1
+            # climb through value-preserving wrappers
+            cur: ast.AST = n
+            par = getattr(cur, "parent", None)
+            while isinstance(par, ast.Call) and (call_name(par) or "").split(".")[-1] in ("int", "bool", "float", "tuple", "list", "cast", "str") and cur in par.args:
+                cur, par = par, getattr(par, "parent", None)
+            used = True
+            if isinstance(par, ast.Expr):
+                used = False
+            elif isinstance(par, (ast.Assign, ast.AnnAssign)) and getattr(par, "value", None) is cur:
+                tgts = par.targets if isinstance(par, ast.Assign) else [par.target]
+                names = [t.id for t in tgts if isinstance(t, ast.Name)]
+                if names and len(names) == len(tgts):
+                    loads = 0
+                    for nm in names:
+                        for x in ast.walk(fi.node):
+                            if isinstance(x, ast.Name) and x.id == nm and isinstance(x.ctx, ast.Load):
+                                pp = getattr(x, "parent", None)
+                                in_log = False
+                                while pp is not None and not isinstance(pp, ast.stmt):
+                                    if isinstance(pp, ast.Call) and (call_name(pp) or "").split(".")[-1] in LOG_CALLS:
+                                        in_log = True
+                                    pp = getattr(pp, "parent", None)
+                                if not in_log:
+                                    loads += 1
+                    used = loads > 0
+            if used:
+                n_used += 1
+            elif first_unused is None:
+                first_unused = (fi, n)
+    return n_sites, n_used, first_unused
 
 
 def registered_plugins(idx: Index) -> List[Tuple[ClassInfo, ast.expr]]:
@@ -143,6 +197,7 @@ def registered_plugins(idx: Index) -> List[Tuple[ClassInfo, ast.expr]]:
 def run(res: Results, idx: Index, tier: str) -> None:
     res.rule("R-C01a", "every keyword parameter JAX binds on a primitive is read by the plugin's lowering or listed inert/derivable", floor=150)
     res.rule("R-C01b", "every key a substitute passes to <plugin primitive>.bind is read by the plugin's lower() or listed shape-only", floor=100)
+    res.rule("R-C01e", "the value of every parameter the lowering reads is used (not read into a dead local)", floor=100)
     res.rule("R-C01c", "lower_equation_with_plugin: inputs asserted bound -> plugin dispatched -> outputs finalised on every path; plugins lower sub-jaxprs through the checked dispatcher", floor=5)
     jp = get_jax_prims()
     res.trusted.append(f"bind() keyword names in the installed jax {jp.version} sources ({len(jp.bind_kw)} primitives, AST scan)")
@@ -187,6 +242,12 @@ def run(res: Results, idx: Index, tier: str) -> None:
             site = f"{m.rel}:{lower.node.lineno}"
             if k in keys:
                 res.ok("R-C01a", site, key, "read by the lowering", lower.qualname)
+                ns, nu, bad = read_usage(_LOWER_FUNCS.get(id(lower.node), [lower]), k)
+                if ns and nu == 0 and bad is not None:
+                    bf, bn = bad
+                    res.violation("R-C01e", f"{bf.module.rel}:{bn.lineno}", f"{m.rel}::{c.name}::{prim_var}::{k}::value-used", f"`{src(bn, 40)}` is read but its value is never used (assigned to a local that is not loaded again, or a bare expression): the lowering ignores `{k}` although it looks consumed", bf.qualname)
+                elif ns:
+                    res.ok("R-C01e", site, f"{m.rel}::{c.name}::{prim_var}::{k}::value-used", f"{nu} of {ns} read sites feed a use", lower.qualname)
             elif esc:
                 res.ok("R-C01a", site, key, "the whole params mapping is forwarded / iterated", lower.qualname)
             elif (prim_var, k) in INERT_PRIM_PARAMS or ("*", k) in INERT_PRIM_PARAMS:
